@@ -188,6 +188,16 @@ def _attempt(payload):
             expr.set_id_manager(IdManager([expr], db, 4))
             v = expr.get_value_c(database=db, prepare_ids=False, number_of_draws=4)
             out['value'] = np.asarray(v, float).tolist()
+        elif entry == 'BIOGEME_secondary_formula':
+            # the faulty formula is not the log likelihood but another entry of the dictionary of formulas
+            from biogeme.biogeme import BIOGEME
+            from biogeme.parameters import Parameters
+
+            twin, _ = build.build(payload['twin_spec'])
+            bg = BIOGEME(db, {'log_like': twin, 'other_formula': expr}, parameters=Parameters())
+            out['constructed'] = True
+            sim = bg.simulate({n: payload['twin_spec']['betas'].get(n, spec['betas'].get(n, [0.1]))[0] for n in bg.free_beta_names})
+            out['value'] = sim['other_formula'].to_numpy(dtype=float).tolist()
         elif entry in ('BIOGEME', 'BIOGEME_threads', 'simulate'):
             from biogeme.biogeme import BIOGEME
             from biogeme.parameters import Parameters
@@ -417,8 +427,10 @@ def _plant_case(case, rec):
             entries.append('create_function')
         elif extra_entry < 0.8:
             entries.append('prepared_ids')
+        if rr.random() < 0.35 and kind not in ('beta_named_as_column', 'free_and_fixed_same_name'):
+            entries.append('BIOGEME_secondary_formula')
         for entry in entries:
-            res = attempt(fs, entry)
+            res = attempt(fs, entry, twin_spec=base) if entry == 'BIOGEME_secondary_formula' else attempt(fs, entry)
             rec.key([fs['ast'], kind, path, entry])
             _judge_outcome(rec, res, kind, entry, names, witness, parent, slot)
     rec.sample({'base_formula': base['ast'], 'planted': [[k, p[1], p[2]] for k, p in picks]})
